@@ -255,7 +255,7 @@ def run(rep, ctx):   # noqa: F811  (final definition)
         run_liveness(rep, ctx.fx, ['T1', 'T2', 'T3', 'T4', 'P-overflow', 'P-div', 'P-unwrap', 'N', 'U0'])
 
 
-def run_N(rep, g, reach, scope_name='read-reachable', floor=90):
+def run_N(rep, g, reach, scope_name='read-reachable', floor=75):
     """N: narrowing / sign-changing integer casts must be value-preserving by interval + guard
     reasoning, a cast-and-compare-back idiom, or an exact-key reviewed entry."""
     from .. import panic_sites as ps
